@@ -94,6 +94,11 @@ PROPS = {
         "rule": "(b) 1..8 generators alive at once (real muyo/sno generators through id.GetSno(), and fallback generators created at the same instant of the frozen simulated clock), 1..16 goroutines drawing 1..60 ids each from every generator under tape-driven interleaving, snapshot after a drawn number of draws followed by RestoreIdGenerator and further draws (crash/restart with durable state), occasionally 70000 draws inside one frozen time unit (sequence overflow); (a) engine runs of forking programs with the engine's real default generator, collecting FlowId/InstanceId from the traces; race build: the Go race detector sees the draws with the scheduler hand-off hidden; oracle: one set, any repeat is a violation; distinct = schedule hash; non-trivial = >1 drawing goroutine or generator",
         "oracle": "pairwise distinctness over the whole run + race detector",
     },
+    "C15": {
+        "level": "exploration", "quick_s": 35, "thorough_s": 900, "thorough_seeds": 4,
+        "rule": "generated definitions of the C01 (all gateway kinds, defaults, expr and XPath conditions, data-dependent conditions, sub-processes), C03, C04 (data objects), C05, C06, C08 (olive properties/results/data outputs, task definitions), C11, C13 (timer definitions), C14 (multiple event definitions) and C18 (collaborations, message flows, several processes) families are parsed, serialised with encoding/xml and parsed again; the engine then runs on the RE-PARSED model under the family's fault plan and a tape-driven goroutine schedule and the recorded history is checked by the family's oracle, which is derived from the ORIGINAL graph (behaviour clause); before each run the same document is compared structurally (original vs re-parsed, serialised model vs an untouched twin, every id retrievable); once per invocation every bundled .bpmn file goes through the structural comparison; distinct = schedule hash; non-trivial = as in the family",
+        "oracle": "reference model of the original diagram over the history of the re-parsed one + field-by-field model comparison",
+    },
     "C17": {
         "level": "exploration", "quick_s": 60, "thorough_s": 1200, "thorough_seeds": 4, "race": True, "race_clause": "C17/data-race",
         "rule": "scenarios of the C01, C03, C04, C06, C08, C10 and C11 families in the race build, with additional client goroutines: subscribers that join, read a few traces and leave again and again, readers of Locator().CloneVariables/CloneItems/GetVariable woken on every trace, every Do call from its own goroutine, extra WaitUntilComplete callers; the race detector runs inside the simulation with the scheduler hand-off hidden (RaceDisable brackets), reports count if the innermost frame of one access lies in a non-test file of the module; panics in any simulated goroutine are captured; the family's own oracle must still accept the outcome; distinct = schedule hash; non-trivial = a context switch",
